@@ -3511,6 +3511,27 @@ func lmCheckRegion(c *Ctx, lm *ssa.Function, vals []lmValidator) {
 				}
 				org |= R.origin(fc.Cond)
 			}
+			rcts := []lmCondT{{iff.Cond, p0}}
+			for _, fc := range ir.FactsAt(b) {
+				other := fc.From.Succs[0]
+				if fc.Truth {
+					other = fc.From.Succs[1]
+				}
+				if purely(other) || ir.CanReach(other, b) {
+					continue
+				}
+				rcts = append(rcts, lmCondT{fc.Cond, fc.Truth})
+			}
+			if org&lmOrgNum == 0 {
+				if v, construct, why, ok := lmCfgRejection(rcts, condText); ok && v != lmDecOK {
+					if v == lmDecViolation {
+						c.Violation(fn, pos, construct, why)
+					} else {
+						c.Undecided(fn, pos, construct, why)
+					}
+					continue
+				}
+			}
 			switch {
 			case org&lmOrgNum != 0:
 				c.Violation(fn, pos, "rejects on "+condText,
@@ -4135,6 +4156,7 @@ func lmJudgeDecoderBranch(P *ir.Program, iff *ssa.If, rej int, purely func(*ssa.
 	text := lpDescCond(cond, truth)
 	// the conditions that control the rejection
 	conds := []ssa.Value{cond}
+	cts := []lmCondT{{cond, truth}}
 	for _, fc := range ir.FactsAt(b) {
 		other := fc.From.Succs[0]
 		if fc.Truth {
@@ -4144,11 +4166,10 @@ func lmJudgeDecoderBranch(P *ir.Program, iff *ssa.If, rej int, purely func(*ssa.
 			continue
 		}
 		conds = append(conds, fc.Cond)
+		cts = append(cts, lmCondT{fc.Cond, fc.Truth})
 	}
-	for _, cd := range conds {
-		if lmIsCfgNilTest(cd) {
-			return lmDecOK, text, "guarded by a nil test of a configuration field: an unusable configuration (the exact form of a type-witness guard is DECODEGUARD's)"
-		}
+	if v, construct, why, ok := lmCfgRejection(cts, text); ok {
+		return v, construct, why
 	}
 	for {
 		u, ok := cond.(*ssa.UnOp)
@@ -4167,6 +4188,18 @@ func lmJudgeDecoderBranch(P *ir.Program, iff *ssa.If, rej int, purely func(*ssa.
 	// a failed type assertion
 	if ex, ok := cond.(*ssa.Extract); ok {
 		if ta, ok := ex.Tuple.(*ssa.TypeAssert); ok && ta.CommaOk && ex.Index == 1 {
+			if lmIsLinkElem(ta.X) {
+				excluded := false
+				for _, fc := range ir.FactsAt(b) {
+					if tv, tnn, ok := ir.NilTest(fc.Cond); ok && ir.ResolveCell(tv) == ir.ResolveCell(ta.X) && fc.Truth == tnn {
+						excluded = true
+					}
+				}
+				if !excluded {
+					return lmDecViolation, "rejects a nil link: " + text,
+						fmt.Sprintf("the decoder rejects an element of the decoded Link list when `%s` without having excluded nil first: nil is a legal link (an absent child), so every node with an absent child is refused", text)
+				}
+			}
 			return lmDecOK, text, "a failed type assertion of a decoded value"
 		}
 	}
@@ -4222,6 +4255,10 @@ func lmJudgeDecoderBranch(P *ir.Program, iff *ssa.If, rej int, purely func(*ssa.
 					}
 				}
 			}
+		}
+		if up, ok := lmWholeSizeBound(bin, op); ok && up {
+			return lmDecViolation, "bounds the size of a stored node: " + text,
+				fmt.Sprintf("the load path rejects when `%s`: an upper bound on the length of the whole byte slice of a stored node, which the writer does not enforce: a node that was written cannot be read back", text)
 		}
 		if lmBytesOnly(bin.X) && lmBytesOnly(bin.Y) {
 			return lmDecOK, text, "byte-level malformedness (buffer lengths and decoded integers only): CODECSYM / DECODEBOUNDS"
@@ -4741,4 +4778,161 @@ func lmFormatLookupMiss(iff *ssa.If, rej int) bool {
 		found = true
 	}
 	return found
+}
+
+// ---- ROOTEXACT: which configuration rejections are justified ------------------------
+
+type lmCondT struct {
+	cond  ssa.Value
+	truth bool
+}
+
+// lmCfgName names the configuration item v reads: a RemoteConfig field, the
+// Mast field copied from it, the configuration pointer, or the reflect type of
+// one of those ("" if v is none).
+func lmCfgName(v ssa.Value) string {
+	v = ir.ResolveCell(ir.Strip(v))
+	if call, ok := v.(*ssa.Call); ok && lmIsExt(call, "reflect.TypeOf") && len(call.Call.Args) == 1 {
+		return lmCfgName(call.Call.Args[0])
+	}
+	if p, ok := v.(*ssa.Parameter); ok && ir.IsPtrToNamed(p.Type(), "RemoteConfig") {
+		return "config"
+	}
+	u, ok := v.(*ssa.UnOp)
+	if !ok || u.Op != token.MUL {
+		return ""
+	}
+	fa, ok := u.X.(*ssa.FieldAddr)
+	if !ok {
+		return ""
+	}
+	if ir.IsPtrToNamed(fa.X.Type(), "RemoteConfig") || lpIsMastPtr(fa.X.Type()) {
+		return ir.FieldName(fa.X.Type(), fa.Field)
+	}
+	return ""
+}
+
+var lmWitnessFields = map[string]bool{"KeysLike": true, "ValuesLike": true, "zeroKey": true, "zeroValue": true}
+var lmStoreFields = map[string]bool{"StoreImmutablePartsWith": true, "persist": true}
+var lmRegTypesFields = map[string]bool{"UnmarshalerUsesRegisteredTypes": true, "unmarshalerUsesRegisteredTypes": true}
+
+// lmCfgRejection judges a rejection one of whose controlling conditions is
+// "a configuration value is nil". Justified: the store is unset; the
+// configuration itself is nil; a type witness is unset AND the same rejection
+// is conditioned on the registered-types flag being false or on the list that
+// needs the witness being non-empty (the decoder's guard, whose exact form
+// DECODEGUARD decides). A witness rejection without either refuses the
+// documented registered-types configuration.
+func lmCfgRejection(cts []lmCondT, text string) (int, string, string, bool) {
+	var nilItems []string
+	regFalse, nonEmpty := false, false
+	for _, ct := range cts {
+		cond, truth := ct.cond, ct.truth
+		for {
+			u, ok := cond.(*ssa.UnOp)
+			if !ok || u.Op != token.NOT {
+				break
+			}
+			truth = !truth
+			cond = u.X
+		}
+		if tv, tnn, ok := ir.NilTest(cond); ok {
+			if n := lmCfgName(tv); n != "" && truth != tnn {
+				nilItems = append(nilItems, n)
+			}
+			continue
+		}
+		if n := lmCfgName(cond); lmRegTypesFields[n] && !truth {
+			regFalse = true
+			continue
+		}
+		if bin, ok := cond.(*ssa.BinOp); ok && lpNegOp(bin.Op) != token.ILLEGAL {
+			_, _, _, lx := lmListLen(bin.X)
+			_, _, _, ly := lmListLen(bin.Y)
+			_, cx := lmConstInt(bin.X)
+			_, cy := lmConstInt(bin.Y)
+			if (lx && cy) || (ly && cx) {
+				nonEmpty = true
+			}
+		}
+	}
+	if len(nilItems) == 0 {
+		return 0, "", "", false
+	}
+	for _, n := range nilItems {
+		if lmWitnessFields[n] {
+			if regFalse || nonEmpty {
+				return lmDecOK, text, "a type witness is unset where it is needed (conditioned on the registered-types flag being false, or on a non-empty list: the exact form is DECODEGUARD's)", true
+			}
+			return lmDecViolation, "rejects when " + n + " is unset: " + text,
+				fmt.Sprintf("the rejection taken when `%s` refuses every configuration without %s, although a configuration with UnmarshalerUsesRegisteredTypes and no %s is documented to work (the unmarshaler picks the types): such trees can be written but no longer load", text, n, n), true
+		}
+	}
+	for _, n := range nilItems {
+		if lmStoreFields[n] || n == "config" {
+			return lmDecOK, text, "the store (or the configuration itself) is unset: nothing can be loaded", true
+		}
+	}
+	return lmDecUndecided, "rejects when " + nilItems[0] + " is unset: " + text,
+		"the rejection depends on an optional configuration value being nil; whether a configuration without it is meant to work is not decided", true
+}
+
+// lmIsLinkElem: v is an element of a Link list.
+func lmIsLinkElem(v ssa.Value) bool {
+	u, ok := ir.ResolveCell(v).(*ssa.UnOp)
+	if !ok || u.Op != token.MUL {
+		return false
+	}
+	ia, ok := u.X.(*ssa.IndexAddr)
+	if !ok {
+		return false
+	}
+	s, ok := ir.ResolveCell(ia.X).(*ssa.UnOp)
+	if !ok || s.Op != token.MUL {
+		return false
+	}
+	fa, ok := s.X.(*ssa.FieldAddr)
+	return ok && ir.FieldName(fa.X.Type(), fa.Field) == "Link"
+}
+
+// lmWholeSizeBound: the comparison relates the length of a whole stored node's
+// bytes (the result of Persist.Load or a []byte parameter) to a constant; up
+// reports whether it is an upper bound on that length.
+func lmWholeSizeBound(bin *ssa.BinOp, op token.Token) (up, ok bool) {
+	whole := func(v ssa.Value) bool {
+		call, isC := ir.ResolveCell(v).(*ssa.Call)
+		if !isC {
+			return false
+		}
+		bi, isB := call.Call.Value.(*ssa.Builtin)
+		if !isB || bi.Name() != "len" || len(call.Call.Args) != 1 {
+			return false
+		}
+		a := ir.ResolveCell(call.Call.Args[0])
+		s, isS := a.Type().Underlying().(*types.Slice)
+		if !isS {
+			return false
+		}
+		if b, isB := s.Elem().Underlying().(*types.Basic); !isB || b.Kind() != types.Uint8 {
+			return false
+		}
+		switch x := a.(type) {
+		case *ssa.Parameter:
+			return true
+		case *ssa.Extract:
+			if c, ok := x.Tuple.(*ssa.Call); ok && c.Call.IsInvoke() && c.Call.Method.Name() == "Load" {
+				return true
+			}
+		}
+		return false
+	}
+	x, y := bin.X, bin.Y
+	if _, isC := lmConstInt(x); isC {
+		x, y = y, x
+		op = lpFlipOp(op)
+	}
+	if _, isC := lmConstInt(y); !isC || !whole(x) {
+		return false, false
+	}
+	return op == token.GTR || op == token.GEQ, true
 }
